@@ -107,7 +107,7 @@ class TransferManager(BaseManager):
         self._ticket_generator = ticket_generator()
 
         self._transfers: list[Transfer] = []
-        self._file_connection_futures: dict[int, asyncio.Future] = {}
+        self._file_connection_futures: dict[tuple[Optional[str], int], asyncio.Future] = {}
         self._progress_reporting_task: BackgroundTask = BackgroundTask(
             interval=self._settings.transfers.report_interval,
             task_coro=self._progress_reporting_job,
@@ -866,9 +866,11 @@ class TransferManager(BaseManager):
             await transfer.state.queue()
             return
 
-        # Already create a future for the incoming connection
+        # Already create a future for the incoming connection. The ticket is
+        # chosen by the uploader: only the combination with the username is
+        # unique, two uploaders can (and do) pick the same ticket
         file_connection_future: asyncio.Future = asyncio.Future()
-        self._file_connection_futures[request.ticket] = file_connection_future
+        self._file_connection_futures[(transfer.username, request.ticket)] = file_connection_future
 
         try:
             async with atimeout(60):
@@ -1316,7 +1318,7 @@ class TransferManager(BaseManager):
                 return
 
             try:
-                self._file_connection_futures[ticket].set_result(connection)
+                self._file_connection_futures[(connection.username, ticket)].set_result(connection)
 
             except KeyError:
                 logger.warning("did not find a task waiting for file connection with ticket : %d", ticket)
